@@ -16,9 +16,19 @@ def _env():
     return e
 
 
+MODE = {"run": "run", "gen": "gen", "exec": "exec"}
+
+
+def set_mode(prefix):
+    """'' for chain scenarios, 'pool-' for pool-task scenarios"""
+    MODE["run"] = prefix + "run"
+    MODE["gen"] = prefix + "gen"
+    MODE["exec"] = prefix + "exec"
+
+
 def run_seed(prop, seed, timeout=600):
     try:
-        r = subprocess.run([BIN, "run", "--seed", str(seed), "--prop", prop], env=_env(), stdout=subprocess.PIPE, stderr=subprocess.PIPE, text=True, timeout=timeout)
+        r = subprocess.run([BIN, MODE["run"], "--seed", str(seed), "--prop", prop], env=_env(), stdout=subprocess.PIPE, stderr=subprocess.PIPE, text=True, timeout=timeout)
     except subprocess.TimeoutExpired:
         return {"seed": seed, "harness_error": "timeout", "violation": None}
     for line in reversed(r.stdout.strip().splitlines()):
@@ -31,7 +41,7 @@ def run_seed(prop, seed, timeout=600):
 
 
 def gen_scenario(prop, seed):
-    doc, _ = run_json([BIN, "gen", "--seed", str(seed), "--prop", prop], env=_env(), timeout=120)
+    doc, _ = run_json([BIN, MODE["gen"], "--seed", str(seed), "--prop", prop], env=_env(), timeout=120)
     return doc
 
 
@@ -40,7 +50,7 @@ def exec_scenario(sc, timeout=600):
         json.dump(sc, f)
         p = f.name
     try:
-        doc, _ = run_json([BIN, "exec", "--scenario", p, "--hash-seed", str(sc["seed"])], env=_env(), timeout=timeout)
+        doc, _ = run_json([BIN, MODE["exec"], "--scenario", p, "--hash-seed", str(sc["seed"])], env=_env(), timeout=timeout)
     finally:
         os.unlink(p)
     return doc
@@ -94,6 +104,8 @@ def sweep(prop, lo, n, workers=16, agg=None, budget_s=None):
 def simplify(sc):
     """cheaper variants tried after ddmin: drop mutations, drop tx richness"""
     import copy
+    if "tree" not in sc:
+        return
     for i, t in enumerate(sc["tree"]):
         if t["recipe"].get("mutation"):
             c = copy.deepcopy(sc)
@@ -113,6 +125,8 @@ def simplify(sc):
 
 def prune_tree(sc):
     """drop trailing tree blocks that no op refers to (indexes stay valid)"""
+    if "tree" not in sc:
+        return sc
     used = 0
     for op in sc["ops"]:
         if op.get("op") in ("Deliver", "Truncate"):
